@@ -334,3 +334,18 @@ prop("C15",
      technique="bounded-exhaustive (pairwise) enumeration of option assignments over levels on the real BenchOptions::overwrite; Bencher::counter sequences through the real loop; thread-list normalisation",
      text="For every pair of option fields and every pattern of levels setting them, the options are folded with the real overwrite exactly as the runner descends the tree and every field must equal the first value in priority order runner > benchmark > inner > mid > outer group, independently of the other field; Bencher::counter sequences against all inherited-counter patterns must replace only their own kind; thread lists normalise to sorted, de-duplicated lists.",
      note="Trusted: hook wrappers options_overwrite / counter_set_get / counter_set_insert and the fold order replicated in harness/mc-seq/src/bin/c15.rs.", engine="S")
+
+
+prop("C05",
+     quick=[{"engine": "S", "bin": "c05", "parts": 4}],
+     thorough=[{"engine": "S", "bin": "c05", "parts": 8, "timeout": 3000}],
+     assumptions=[
+         "injected samples: all duration sequences of length 0..5 over {0,1,2,3,7,1000,2^64+1} ps x sample sizes {1,2,3,1000} x 5 tally-presence masks x counter modes (none / constant / per-sample for one kind; all four kinds and a second constant kind in thorough)",
+         "with ties the very samples that supplied fastest / slowest / median are not unique: the oracle requires one admissible choice of samples that explains all allocation and counter figures at once",
+         "floating-point allocation figures are compared with relative tolerance 1e-9; times and counters exactly",
+         "when both Bencher::counter and input_counter of one kind are given the statement does not say which wins: either reading is accepted, anything else is a violation",
+         "thread counts > 1 only change which samples are recorded (C03/C08), not how statistics are computed from them",
+     ],
+     technique="bounded-exhaustive enumeration of injected sample sequences through the real compute_stats against an exact integer reference; scripted-clock runs of the real loop comparing recorded samples with the clock and statistics with the recorded samples",
+     text="Every enumerated sample sequence is injected into a real BenchContext and compute_stats must return exactly min/s, max/s, floor-mean-of-middle/s, floor(total/(s*n)), sample and iteration counts, means over all samples, and allocation / counter figures of the very samples that supplied fastest, slowest and median (one consistent choice under ties), with no panic and no NaN, including for zero samples; scripted-clock loop runs additionally check recorded durations (overhead subtraction, precision floor) and per-input counter values against the event log.",
+     note="Trusted: hooks stats_of / verif_parts / run_bencher, the virtual clock, and the reference in harness/mc-seq/src/bin/c05.rs.", engine="S")
